@@ -809,6 +809,9 @@ func (cs *caseT) runCycle(plan []fault, recFailIdx int, ageSec int64, zeroTs boo
 	var jobs []jobRec
 	cycleJob := 0
 	compaction.VerifRunJob = func(jctx context.Context, cfg *compaction.SubprocessJobConfig, lg zerolog.Logger, extraEnv ...string) (res *compaction.SubprocessJobResult, rerr error) {
+		// recfail is a storage error during the recovery pass at the START of the cycle only (that is what
+		// the model's `failing` list means); the settle step after a failed job works on healthy storage
+		parent.recDel = nil
 		jr := jobRec{idx: cs.jobSeq, batch: cfg.BatchNumber, files: append([]string(nil), cfg.Files...)}
 		myJob := cycleJob
 		cycleJob++
